@@ -142,25 +142,31 @@ def run_correspondence(rep: Report, lines, cmps) -> None:
 
 # =============================================================================== end-to-end oracle
 def make_problem(cs: int, n: int):
-    """a register whose natural site order is not the atom order, per-atom drives, 3 steps"""
+    """a register whose natural site order is not the atom order, per-atom drives, 4 steps; one atom can be
+    SLM-masked (its interactions are switched off) until `slm_end`, a step boundary inside the sequence"""
     rng = random.Random(cs)
     pts = [(rng.uniform(0, 9 * n), rng.uniform(0, 9)) for _ in range(n)]
     U = [[0.0] * n for _ in range(n)]
     for i in range(n):
         for j in range(i + 1, n):
             U[i][j] = U[j][i] = 5420158.53 / (math.dist(pts[i], pts[j]) + 7.0) ** 6
-    steps = 3
+    steps = 4
     perm = list(range(n))
     while perm == list(range(n)):
         rng.shuffle(perm)
-    return dict(n=n, U=U, steps=steps, site_perm=perm,
+    return dict(n=n, U=U, steps=steps, site_perm=perm, slm_atom=rng.randrange(n), slm_end=rng.choice([50.0, 100.0, 150.0]),
                 omega=[[rng.uniform(4, 12) for _ in range(n)] for _ in range(steps)],
                 delta=[[rng.uniform(-6, 6) for _ in range(n)] for _ in range(steps)],
                 phi=[[rng.uniform(0, 1) for _ in range(n)] for _ in range(steps)])
 
 
-def run_backend(prob, atoms, bad, backend: str, reorder: bool, leak: bool, perm=None, shots=40):
-    """run on the listed atoms (register order kept); returns occupation/correlation per atom id, energy, bitstrings"""
+EV = [0.25, 0.5, 0.75, 1.0]      # evaluation times = the step boundaries (50, 100, 150, 200 ns)
+ETAGS = ["energy", "energy_variance", "energy_second_moment"]
+
+
+def run_backend(prob, atoms, bad, backend: str, reorder: bool, leak: bool, perm=None, shots=40, slm=False):
+    """run on the listed atoms (register order kept); returns occupation/correlation per atom id at the end, the three
+    Hamiltonian observables at every evaluation time, bitstrings"""
     import numpy as np
     import torch
     from harness import compat
@@ -176,11 +182,18 @@ def run_backend(prob, atoms, bad, backend: str, reorder: bool, leak: bool, perm=
         L[0, 2] = 1e-4          # a leakage channel far too weak to fire: 3 levels, deterministic dynamics
         ops, eig = [L], ("r", "g", "x")
     any_bad = any(bad[i] for i in idx)
+    mU, slm_end = None, 0.0
+    if slm:
+        off = prob["slm_atom"]
+        mU = [[0.0 if (i == off or j == off) else prob["U"][i][j] for j in idx] for i in idx]
+        slm_end = prob["slm_end"]
     data = compat.make_sequence_data(sub(prob["omega"]), sub(prob["delta"]), sub(prob["phi"]), U, T,
                                      qubit_ids=[f"q{i}" for i in idx], bad_atoms=[bad[i] for i in idx],
-                                     state_prep_error=0.1 if any_bad else 0.0, lindblad_ops=ops, eigenstates=eig)
+                                     state_prep_error=0.1 if any_bad else 0.0, lindblad_ops=ops, eigenstates=eig,
+                                     masked_U=mU, slm_end_time=slm_end)
     obs = [pb.Occupation(evaluation_times=[1.0]), pb.CorrelationMatrix(evaluation_times=[1.0]),
-           pb.Energy(evaluation_times=[1.0]), pb.BitStrings(evaluation_times=[1.0], num_shots=shots)]
+           pb.Energy(evaluation_times=EV), pb.EnergyVariance(evaluation_times=EV),
+           pb.EnergySecondMoment(evaluation_times=EV), pb.BitStrings(evaluation_times=[1.0], num_shots=shots)]
     random.seed(12345)
     torch.manual_seed(12345)
     if backend == "sv":
@@ -197,18 +210,21 @@ def run_backend(prob, atoms, bad, backend: str, reorder: bool, leak: bool, perm=
     cor = torch.as_tensor(r.get_result("correlation_matrix", 1.0)).tolist()
     return dict(order=ao, occ={a: complex(occ[k]).real for k, a in enumerate(ao)},
                 cor={(a, b): complex(cor[k][l]).real for k, a in enumerate(ao) for l, b in enumerate(ao)},
-                energy=float(r.get_result("energy", 1.0)), bits=dict(r.get_result("bitstrings", 1.0)))
+                energy=float(r.get_result("energy", 1.0)), bits=dict(r.get_result("bitstrings", 1.0)),
+                ham={tag: [complex(r.get_result(tag, t)).real for t in EV] for tag in ETAGS})
 
 
-def oracle_case(cs: int, n: int, bad: tuple, backend: str, reorder: bool, leak: bool, cache=None):
+def oracle_case(cs: int, n: int, bad: tuple, backend: str, reorder: bool, leak: bool, cache=None, slm: bool = False):
     """C25 on one (problem, mask, back-end configuration). Returns [(msg, data, klass)]."""
     prob = make_problem(cs, n)
-    info = {"case_seed": cs, "n": n, "bad": list(bad), "backend": backend, "reorder": reorder, "leak": leak}
+    info = {"case_seed": cs, "n": n, "bad": list(bad), "backend": backend, "reorder": reorder, "leak": leak, "slm": slm}
+    if slm:
+        info.update(slm_atom=prob["slm_atom"], slm_end=prob["slm_end"])
     fails = []
     good = [i for i in range(n) if not bad[i]]
     perm = prob["site_perm"]
     try:
-        full = run_backend(prob, range(n), bad, backend, reorder, leak, perm=perm)
+        full = run_backend(prob, range(n), bad, backend, reorder, leak, perm=perm, slm=slm)
     except ValueError as e:
         if backend == "mps" and len(good) <= 1 and "do state vector" in str(e):
             return [(f"emu-mps raises ValueError({e}) with {len(good)} surviving atom(s) (mask bad={list(bad)}); emu-sv runs it",
@@ -245,12 +261,12 @@ def oracle_case(cs: int, n: int, bad: tuple, backend: str, reorder: bool, leak: 
     if reorder and ref_backend == "mps":
         pos = {a: k for k, a in enumerate(good)}
         red_perm = [pos[a] for a in perm if a in pos]
-    key = (cs, n, tuple(good), ref_backend, reorder and ref_backend == "mps", leak and ref_backend == "mps")
+    key = (cs, n, tuple(good), ref_backend, reorder and ref_backend == "mps", leak and ref_backend == "mps", slm)
     if cache is not None and key in cache:
         red = cache[key]
     else:
         red = run_backend(prob, good, [False] * n, ref_backend, reorder and ref_backend == "mps",
-                          leak and ref_backend == "mps", perm=red_perm)
+                          leak and ref_backend == "mps", perm=red_perm, slm=slm)
         if cache is not None:
             cache[key] = red
     for i in good:
@@ -263,10 +279,39 @@ def oracle_case(cs: int, n: int, bad: tuple, backend: str, reorder: bool, leak: 
         fails.append((f"correlation matrix of the good atoms differs from the reduced run by {worst:.2e} > {tol:g}", info, None))
     if abs(full["energy"] - red["energy"]) > tol * max(1.0, abs(red["energy"])):
         fails.append((f"energy {full['energy']!r} with the mask, {red['energy']!r} on the reduced register", info, None))
+    # the Hamiltonian observables at every evaluation time (before and after the end of an SLM mask)
+    htol = tol if ref_backend == backend else 1e-3
+    for tag in ETAGS:
+        for k, t in enumerate(EV):
+            a, b = full["ham"][tag][k], red["ham"][tag][k]
+            if abs(a - b) > htol * max(1.0, abs(b), abs(red["ham"]["energy_second_moment"][k])):
+                when = "" if not slm else (" (SLM mask still on)" if 200.0 * t <= prob["slm_end"] else " (after the SLM mask ended)")
+                fails.append((f"{tag} at t = {200.0 * t:g} ns{when}: {a!r} with the mask, {b!r} on the reduced register", info, None))
+                break
+    # emu-mps against emu-sv on the same masked problem. TDVP's splitting error depends on the site order (up to ~1e-2 on
+    # these strongly interacting registers), so only the natural order is compared, with a 1e-2 relative allowance.
+    if backend == "mps" and not leak and not reorder:
+        skey = (cs, n, tuple(bad), "sv-masked", slm)
+        if cache is not None and skey in cache:
+            svr = cache[skey]
+        else:
+            svr = run_backend(prob, range(n), bad, "sv", False, False, slm=slm)
+            if cache is not None:
+                cache[skey] = svr
+        for tag in ETAGS:
+            for k, t in enumerate(EV):
+                a, b = full["ham"][tag][k], svr["ham"][tag][k]
+                e2 = abs(svr["ham"]["energy_second_moment"][k])
+                if abs(a - b) > 1e-2 * max(1.0, abs(b), math.sqrt(e2) if tag == "energy" else e2):
+                    fails.append((f"{tag} at t = {200.0 * t:g} ns: emu-mps {a!r} vs emu-sv {b!r} on the same masked problem", info, None))
+                    break
     return fails
 
 
-CONFIGS = [("sv", False, False), ("mps", False, False), ("mps", True, False), ("mps", False, True), ("mps", True, True)]
+# (back-end, reorder, leak, SLM mask ending inside the sequence)
+CONFIGS = [("sv", False, False, False), ("mps", False, False, False), ("mps", True, False, False), ("mps", False, True, False),
+           ("mps", True, True, False), ("sv", False, False, True), ("mps", False, False, True), ("mps", True, False, True),
+           ("mps", True, True, True)]
 
 
 def oracle_plan(rng, tier: str):
@@ -276,12 +321,14 @@ def oracle_plan(rng, tier: str):
     for n in (2, 3, 4, 5):
         cs = rng.randrange(2 ** 31)
         masks = list(itertools.product([False, True], repeat=n))
-        for cfg in CONFIGS:
+        for ci, cfg in enumerate(CONFIGS):
             ms = masks
+            if tier == "quick" and (ci in (3, 7) or (n == 2 and ci in (4, 5))):
+                continue        # quick: the leak-only and the reorder-only SLM configurations are covered by their combinations
             if tier == "quick" and n >= 4:
-                ms = rng.sample(masks, 8 if n == 4 else 5)
+                ms = rng.sample(masks, 5 if n == 4 else 3)
             elif tier == "quick" and n == 3 and cfg[0] == "mps":
-                ms = rng.sample(masks, 6)
+                ms = rng.sample(masks, 5)
             for w in ms:
                 plan.append((cs, n, tuple(w), cfg))
     return plan
@@ -289,17 +336,17 @@ def oracle_plan(rng, tier: str):
 
 def run_oracle(rep: Report, plan, first_only=False) -> None:
     cache = {}
-    for cs, n, bad, (backend, reorder, leak) in plan:
+    for cs, n, bad, (backend, reorder, leak, slm) in plan:
         try:
-            fails = oracle_case(cs, n, bad, backend, reorder, leak, cache)
+            fails = oracle_case(cs, n, bad, backend, reorder, leak, cache, slm=slm)
         except Exception as e:
             import traceback
             fails = [(f"real code raised {type(e).__name__}: {e}",
                       {"case_seed": cs, "n": n, "bad": list(bad), "backend": backend, "reorder": reorder, "leak": leak,
-                       "trace": traceback.format_exc()[-700:]}, None)]
-        rep.case(key=("oracle", cs, bad, backend, reorder, leak), nontrivial=any(bad), trace=False,
-                 sample={"n": n, "bad": list(bad), "backend": backend, "reorder": reorder, "leak": leak} if any(bad) else None)
-        rep.hist("oracle_config", f"{backend}{'+reorder' if reorder else ''}{'+leak' if leak else ''}")
+                       "slm": slm, "trace": traceback.format_exc()[-700:]}, None)]
+        rep.case(key=("oracle", cs, bad, backend, reorder, leak, slm), nontrivial=any(bad), trace=False,
+                 sample={"n": n, "bad": list(bad), "backend": backend, "reorder": reorder, "leak": leak, "slm": slm} if any(bad) else None)
+        rep.hist("oracle_config", f"{backend}{'+reorder' if reorder else ''}{'+leak' if leak else ''}{'+slm' if slm else ''}")
         rep.hist("oracle_survivors", min(n - sum(bad), 3))
         for msg, data, klass in fails:
             rep.fail(msg, data, klass=klass)
@@ -311,10 +358,11 @@ def run_oracle(rep: Report, plan, first_only=False) -> None:
 def check(rep: Report, tier: str, seed: int) -> None:
     rep.rule = ("correspondence: every mask on 2–5 atoms (and random masks on 6–8) × {MPS, MPO factors} × dims 2/3, Gaussian-integer "
                 "factors, bonds 1–4, plus wrong factor counts (assert); get_extended_site_index for desired ∈ {None, 0..k+1}; "
-                "MPS.make(count). oracle: registers of 2–5 atoms with a forced non-identity site order, per-atom drives, 3 steps of "
-                "50 ns (dt = 10); thorough = all masks × {sv, mps, mps+reorder, mps+leak, mps+reorder+leak}; quick = all masks on 2–3 atoms "
+                "MPS.make(count). oracle: registers of 2–5 atoms with a forced non-identity site order, per-atom drives, 4 steps of "
+                "50 ns (dt = 10), optionally one atom SLM-masked until 50/100/150 ns; Energy / EnergyVariance / EnergySecondMoment at "
+                "50, 100, 150, 200 ns; thorough = all masks × {sv, mps, mps+reorder, mps+leak, mps+reorder+leak} × {no SLM, SLM}; quick = all masks on 2–3 atoms "
                 "+ a seeded sample on 4–5. tolerance 1e-8 (sv) / 1e-7 (mps, precision 1e-10, same relative site order in the "
-                "reduced run). non-trivial = at least one bad atom")
+                "reduced run); emu-mps (natural order) vs emu-sv on the same masked problem 1e-2 relative (TDVP splitting error). non-trivial = at least one bad atom")
     rep.assumptions = [
         "accuracy of the time-steppers (emu-sv Krylov, emu-mps TDVP): DynamicsAsAbsent is stated, not proved; validated by the masked-vs-reduced oracle",
         "the permutation of the mask / drives / interaction matrix into site order is C03's subject; here it is exercised end to end with a forced non-identity order",
@@ -355,7 +403,8 @@ def replay(rep: Report, path: str) -> int:
     for f in data.get("failing_inputs", []):
         d = f["data"]
         try:
-            fails = oracle_case(d["case_seed"], d["n"], tuple(d["bad"]), d["backend"], d["reorder"], d["leak"])
+            fails = oracle_case(d["case_seed"], d["n"], tuple(d["bad"]), d["backend"], d["reorder"], d["leak"],
+                                slm=d.get("slm", False))
         except Exception as e:
             fails = [(f"real code raised {type(e).__name__}: {e}", d, None)]
         for msg, _, klass in fails:
